@@ -923,7 +923,7 @@ class NumpyProxy:
         if has_sym(a) and not isinstance(a, _np.ndarray):
             a = _np.asarray(a, dtype=object)
         if is_symarr(a) and a.size == 0:
-            return 0.0
+            return _np.sum(a.astype(float), axis=axis, **k)
         if is_symarr(a) and logical_dtype(a).kind == "b":
             a = _vec(lambda e: SymInt(z3.If(tobool(e), 1, 0)) if isinstance(e, Sym) else int(e))(a)
         return _np.sum(a, axis=axis, **k)
